@@ -71,6 +71,7 @@ def run_x05race(chk, pid, runner, tier, seed, workdir, log, only_key):
 RUNNERS = {"x05race": run_x05race}
 
 SPEC = {
+    "coq_targets": ["Props/X05Lock.vo"],
     "runners": [{
         "kind": "coqcases", "module": "CorrX05", "harness": "x05",
         "corr": "Run/CorrX05.v (exact-rational model + monitor vs $VERIF_REPO/rankCalculation)",
